@@ -146,13 +146,15 @@ pub struct World {
     pub fgs: Vec<FlushGuard>,
     pub ffs: Vec<ForceFlushGuard>,
     pub sink: Sink,
+    /// the mutations that were really applied (an owner was alive), in order of application
+    pub applied_muts: Vec<u64>,
 }
 impl World {
     pub fn new() -> World {
         let sink = Sink::default();
         sink.tracker.owners.store(1, SeqCst);
         let owner = E::default().append_on_drop(sink.clone());
-        World { owners: vec![OwnerRef::Direct(owner)], fgs: vec![], ffs: vec![], sink }
+        World { owners: vec![OwnerRef::Direct(owner)], fgs: vec![], ffs: vec![], sink, applied_muts: vec![] }
     }
     /// Applies one action; actions that are not enabled (no such object) are skipped, as in the model.
     pub fn apply(&mut self, op: Op) {
@@ -163,12 +165,14 @@ impl World {
                     // DerefMut through Parent
                     let e: &mut E = &mut *o;
                     e.log.push_mut(v);
+                    self.applied_muts.push(v);
                 }
                 Some(OwnerRef::Handle(_)) => {
                     // any live clone, through `&`
                     let k = (v as usize) % self.owners.len();
                     if let OwnerRef::Handle(h) = &self.owners[k] {
                         h.log.push(v);
+                        self.applied_muts.push(v);
                     }
                 }
                 None => {}
@@ -208,10 +212,19 @@ impl World {
             }
             Op::DropOwner(k) => {
                 if !self.owners.is_empty() {
+                    let k0 = k;
                     let k = k % self.owners.len();
                     let o = self.owners.remove(k);
                     t.owners.fetch_sub(1, SeqCst);
-                    drop(o);
+                    match o {
+                        // every other time through metrique::instrument::Instrumented::emit ("emit the metrics and
+                        // return the value"), which must be the same as dropping the owner
+                        OwnerRef::Direct(o) if k0 % 2 == 1 => {
+                            let v = metrique::instrument::Instrumented::from_parts(k0, o).emit();
+                            assert_eq!(v, k0);
+                        }
+                        o => drop(o),
+                    }
                 }
             }
             Op::DropFlush(k) => {
@@ -263,6 +276,8 @@ pub enum Status {
 struct SchedSt {
     status: Vec<Status>,
     turn: Option<usize>,
+    /// the controller gave up (a thread did not come back within the watchdog time): nobody parks any more
+    aborted: bool,
 }
 pub struct Sched {
     st: Mutex<SchedSt>,
@@ -282,6 +297,12 @@ thread_local! {
 }
 thread_local! {
     static IN_CLOSE: std::cell::Cell<bool> = const { std::cell::Cell::new(false) };
+    static NO_PARK: std::cell::Cell<bool> = const { std::cell::Cell::new(false) };
+}
+/// While a thread holds the harness's world lock it must not park (a destructor running there - which the
+/// unmodified code never does - would otherwise stall every other thread).
+pub fn set_no_park(b: bool) {
+    NO_PARK.with(|c| c.set(b));
 }
 /// While a thread closes an entry, the home guards of never-opened slots are dropped by `Slot::close`; their
 /// "slotguard.sent" hook is not a scheduling point (nothing observable happens there).
@@ -300,6 +321,9 @@ pub fn install_controller() {
 /// Reached by library hooks (through the installed controller) and by harness code directly.
 pub fn sync_point(name: &'static str) {
     if name == "slotguard.sent" && IN_CLOSE.with(|c| c.get()) {
+        return;
+    }
+    if NO_PARK.with(|c| c.get()) {
         return;
     }
     let cur = CUR.with(|c| c.borrow().clone());
@@ -327,12 +351,17 @@ pub fn point_code(name: &str) -> u64 {
 impl Sched {
     fn pause(&self, tid: usize, name: &'static str) {
         let mut st = self.st.lock().unwrap();
+        if st.aborted {
+            return;
+        }
         st.status[tid] = Status::Parked(name);
         self.cv.notify_all();
-        while st.turn != Some(tid) {
+        while st.turn != Some(tid) && !st.aborted {
             st = self.cv.wait(st).unwrap();
         }
-        st.turn = None;
+        if st.turn == Some(tid) {
+            st.turn = None;
+        }
         st.status[tid] = Status::Running;
     }
     fn finish(&self, tid: usize) {
@@ -351,7 +380,7 @@ impl Sched {
         choose: &mut dyn FnMut(&[usize]) -> usize,
     ) -> (Vec<(usize, &'static str)>, Vec<usize>, bool) {
         install_controller();
-        let s = Arc::new(Sched { st: Mutex::new(SchedSt { status: vec![Status::Running; nthreads], turn: None }), cv: Condvar::new(), step: AtomicUsize::new(0) });
+        let s = Arc::new(Sched { st: Mutex::new(SchedSt { status: vec![Status::Running; nthreads], turn: None, aborted: false }), cv: Condvar::new(), step: AtomicUsize::new(0) });
         let mut joins = vec![];
         for tid in 0..nthreads {
             let s2 = s.clone();
@@ -372,8 +401,19 @@ impl Sched {
         let mut holder: Option<usize> = None;
         loop {
             let mut st = s.st.lock().unwrap();
-            while st.status.iter().any(|x| *x == Status::Running) {
-                st = s.cv.wait(st).unwrap();
+            let t0 = std::time::Instant::now();
+            while st.status.iter().any(|x| *x == Status::Running) && !st.aborted {
+                let (g, _) = s.cv.wait_timeout(st, std::time::Duration::from_millis(200)).unwrap();
+                st = g;
+                if t0.elapsed() > std::time::Duration::from_secs(8) {
+                    st.aborted = true;
+                    deadlock = true;
+                    s.cv.notify_all();
+                }
+            }
+            if st.aborted {
+                drop(st);
+                break;
             }
             let parked: Vec<(usize, &'static str)> = st.status.iter().enumerate()
                 .filter_map(|(i, x)| if let Status::Parked(n) = x { Some((i, *n)) } else { None }).collect();
@@ -392,8 +432,19 @@ impl Sched {
             st.turn = Some(t);
             st.status[t] = Status::Running;
             s.cv.notify_all();
-            while st.status[t] == Status::Running {
-                st = s.cv.wait(st).unwrap();
+            let t0 = std::time::Instant::now();
+            while st.status[t] == Status::Running && !st.aborted {
+                let (g, _) = s.cv.wait_timeout(st, std::time::Duration::from_millis(200)).unwrap();
+                st = g;
+                if t0.elapsed() > std::time::Duration::from_secs(8) {
+                    st.aborted = true;
+                    deadlock = true;
+                    s.cv.notify_all();
+                }
+            }
+            if st.aborted {
+                drop(st);
+                break;
             }
             let reached = match st.status[t] { Status::Parked(n) => n, _ => "done" };
             if reached == "dropall.taken" {
@@ -456,7 +507,8 @@ fn exec_threads(setup: &[Op], prog: &[(usize, Op)], choose: &mut dyn FnMut(&[usi
 fn apply_shared(world: &Arc<Mutex<World>>, op: Op) {
     let mut doomed: Option<Box<dyn std::any::Any + Send>> = None;
     {
-        let mut w = world.lock().unwrap();
+        let mut w = world.lock().unwrap_or_else(|e| e.into_inner());
+        set_no_park(true);
         let t = w.sink.tracker.clone();
         match op {
             Op::DropOwner(k) => {
@@ -485,6 +537,7 @@ fn apply_shared(world: &Arc<Mutex<World>>, op: Op) {
             }
             other => w.apply(other),
         }
+        set_no_park(false);
     }
     drop(doomed);
 }
@@ -613,24 +666,17 @@ fn exec_stress(setup: &[Op], prog: &[(usize, Op)], seed: u64) -> Result<(), Stri
         w.apply(op);
     }
     let sink = w.sink.clone();
-    let mut expected: Vec<u64> = setup.iter().filter_map(|o| if let Op::Mutate(v) = o { Some(*v) } else { None }).collect();
     let world = Arc::new(Mutex::new(w));
-    let applied = Arc::new(Mutex::new(Vec::<u64>::new()));
     let barrier = Arc::new(std::sync::Barrier::new(nthreads));
     let mut joins = vec![];
     for tid in 0..nthreads {
         let ops: Vec<Op> = prog.iter().filter(|(x, _)| *x == tid).map(|(_, o)| *o).collect();
-        let (w2, a2, b2) = (world.clone(), applied.clone(), barrier.clone());
+        let (w2, b2) = (world.clone(), barrier.clone());
         joins.push(std::thread::spawn(move || {
             PERTURB.with(|p| *p.borrow_mut() = Some(Rng::new(seed ^ ((tid as u64 + 1) << 32))));
             b2.wait();
             for &op in &ops {
                 sync_point("op");
-                if let Op::Mutate(v) = op {
-                    // a mutation counts when an owner was alive to make it
-                    let alive = !w2.lock().unwrap().owners.is_empty();
-                    if alive { a2.lock().unwrap().push(v); }
-                }
                 apply_shared(&w2, op);
             }
             PERTURB.with(|p| *p.borrow_mut() = None);
@@ -641,7 +687,7 @@ fn exec_stress(setup: &[Op], prog: &[(usize, Op)], seed: u64) -> Result<(), Stri
     }
     // drop what is left (in creation order), then judge
     {
-        let mut w = world.lock().unwrap();
+        let mut w = world.lock().unwrap_or_else(|e| e.into_inner());
         while !w.owners.is_empty() { w.apply(Op::DropOwner(0)); }
         while !w.fgs.is_empty() { w.apply(Op::DropFlush(0)); }
         while !w.ffs.is_empty() { w.apply(Op::DropForce(0)); }
@@ -654,7 +700,7 @@ fn exec_stress(setup: &[Op], prog: &[(usize, Op)], seed: u64) -> Result<(), Stri
     if r.owners != 0 || !(r.fgs == 0 || r.forced > 0) {
         return Err(format!("appended early: live owners {} flush guards {} force guards dropped {}", r.owners, r.fgs, r.forced));
     }
-    expected.extend(applied.lock().unwrap().iter());
+    let mut expected = world.lock().unwrap_or_else(|e| e.into_inner()).applied_muts.clone();
     let mut got = r.log.clone();
     got.sort();
     expected.sort();
@@ -763,6 +809,8 @@ fn enumerate(caps: &Caps, sh: &Shape, pre: &mut Vec<Op>, f: &mut dyn FnMut(&[Op]
         for k in 0..sh.owners {
             let mut s = sh.clone();
             s.owners -= 1;
+            // the direct owner is dropped plainly (even index) or through Instrumented::emit (odd index)
+            let k = if !sh.handle && pre.len() % 2 == 1 { 1 } else { k };
             next.push((Op::DropOwner(k), s));
         }
     }
